@@ -214,16 +214,114 @@ func endOfDocumentAlwaysRuns(c *RuleCtx) (bool, string) {
 			}
 		}
 	}
+	// a document that no section has seen a field of has left nothing behind: returning before the first
+	// per-field Process call (a validation pass in front of the walk) needs no end-of-document step
+	isFieldProcess := func(in ssa.Instruction) bool {
+		call, ok := in.(ssa.CallInstruction)
+		if !ok || in == eod {
+			return false
+		}
+		cc := call.Common()
+		return cc.IsInvoke() && cc.Method.Name() == "Process"
+	}
+	procClosure := map[*ssa.Function]bool{}
+	var closuresOf func(v ssa.Value, in *ssa.Function, depth int) []*ssa.Function
+	closuresOf = func(v ssa.Value, in *ssa.Function, depth int) []*ssa.Function {
+		if depth > 4 || v == nil {
+			return nil
+		}
+		switch x := v.(type) {
+		case *ssa.MakeClosure:
+			if f, ok := x.Fn.(*ssa.Function); ok {
+				return []*ssa.Function{f}
+			}
+		case *ssa.ChangeType:
+			return closuresOf(x.X, in, depth+1)
+		case *ssa.UnOp:
+			if x.Op != token.MUL {
+				return nil
+			}
+			var cell ssa.Value = x.X
+			owner := in
+			if fv, ok := cell.(*ssa.FreeVar); ok && in.Parent() != nil {
+				// the captured cell in the parent
+				idx := -1
+				for i, f := range in.FreeVars {
+					if f == fv {
+						idx = i
+					}
+				}
+				cell = nil
+				eachInstr(in.Parent(), func(_ *ssa.BasicBlock, pin ssa.Instruction) {
+					if mc, ok := pin.(*ssa.MakeClosure); ok && mc.Fn == ssa.Value(in) && idx >= 0 && idx < len(mc.Bindings) {
+						cell = mc.Bindings[idx]
+					}
+				})
+				owner = in.Parent()
+			}
+			al, ok := cell.(*ssa.Alloc)
+			if !ok {
+				return nil
+			}
+			var out []*ssa.Function
+			for _, r := range *al.Referrers() {
+				if st, ok := r.(*ssa.Store); ok && st.Addr == ssa.Value(al) {
+					out = append(out, closuresOf(st.Val, owner, depth+1)...)
+				}
+			}
+			return out
+		}
+		return nil
+	}
+	for changed := true; changed; {
+		changed = false
+		for _, af := range fn.AnonFuncs {
+			if procClosure[af] {
+				continue
+			}
+			eachInstr(af, func(_ *ssa.BasicBlock, in ssa.Instruction) {
+				if isFieldProcess(in) {
+					procClosure[af] = true
+				}
+				if call, ok := in.(ssa.CallInstruction); ok {
+					vals := append([]ssa.Value{call.Common().Value}, call.Common().Args...)
+					for _, v := range vals {
+						for _, g := range closuresOf(v, af, 0) {
+							if procClosure[g] {
+								procClosure[af] = true
+							}
+						}
+					}
+				}
+			})
+			if procClosure[af] {
+				changed = true
+			}
+		}
+	}
 	pa := newPathAnalysis(fn, func(in ssa.Instruction, ev uint64, _ bool) []uint64 {
 		if in == eod || (len(head.Instrs) > 0 && in == head.Instrs[0]) {
 			return []uint64{ev | 1}
+		}
+		if isFieldProcess(in) {
+			return []uint64{ev | 2}
+		}
+		if call, ok := in.(ssa.CallInstruction); ok {
+			vals := append([]ssa.Value{call.Common().Value}, call.Common().Args...)
+			for _, v := range vals {
+				for _, g := range closuresOf(v, fn, 0) {
+					if procClosure[g] {
+						return []uint64{ev | 2}
+					}
+				}
+			}
 		}
 		return nil
 	})
 	pa.run(0)
 	for _, ret := range returnsOf(fn) {
 		for _, ev := range pa.statesBefore(ret) {
-			if ev&1 == 0 {
+			if ev&1 == 0 && ev&2 != 0 {
 				return false, "interim.processDocument can return (" + c.pos(ret) + ") without the end-of-document step: the scratch of the abandoned document stays in the pooled builder"
 			}
 		}
